@@ -7,7 +7,7 @@ from ..core import Fail
 PID = "C03"
 RULE = ("per seed a pool of shapes built to contain every pattern (nested, hole-in-hole, unbounded in unbounded, "
         "component-wise, crossing, disjoint, L-shapes with squares in the notch, Empty, Whole); all ordered pairs in "
-        "general position (or nested without contact), plus simple shapes whose boundaries touch without crossing (shared vertex, vertex on an edge, shared part of an edge; bounded/unbounded): `B in A`, A.contains_shape(B), the corollaries A in A, "
+        "general position (or nested without contact), curved contents whose control polygon leaves the container while the curve stays inside (parabola cap in a rectangle, few-arc circle in a tight square; closed-form truth), plus simple shapes whose boundaries touch without crossing (shared vertex, vertex on an edge, shared part of an edge; bounded/unbounded): `B in A`, A.contains_shape(B), the corollaries A in A, "
         "B in A => A|B == A and A&B == B; contains_jordan with both flags for curves against shapes; exact subset "
         "oracle by slab sampling; non-trivial = bounding boxes overlap and neither is Empty/Whole; distinct = SHA-1")
 PROOF_STATUS = ("Props/C03.v: Empty/Whole rows, composition rules for Connected/Disjoint containers and contents; "
@@ -79,6 +79,16 @@ def _touching(rng):
 
 def cases(ctx):
     rng = ctx.rng
+    # curved contents whose CONTROL POLYGON sticks out of the container although the curve does not: the cap under a
+    # parabola (top at h, control point at 2h) in a rectangle whose top edge lies between h and 2h; a circle with few
+    # arcs in a tight square
+    for i in range(ctx.n(6, 60)):
+        a, h = rng.choice([1, 2, 3]), rng.choice([1, 2, 4])
+        top = [F(11, 10) * h, F(3, 2) * h, F(19, 10) * h, F(9, 10) * h, F(5, 2) * h][i % 5]
+        yield {"dome": [a, h], "rect": [F(-a) - F(1, 2), F(-1, 3), F(a) + F(1, 4), top], "truth": top >= h}
+    for i in range(ctx.n(4, 40)):
+        nd = rng.choice([5, 6, 7, 9, 10])
+        yield {"disk": nd, "half": rng.choice([1.02, 1.04, 1.5]), "truth": True}
     # simple shapes whose boundaries touch without crossing (shared vertex, vertex on an edge, shared part of an
     # edge), bounded and unbounded in all four combinations, both directions
     for _ in range(ctx.n(12, 150)):
@@ -107,6 +117,8 @@ def cases(ctx):
 
 
 def nontrivial(case):
+    if "dome" in case or "disk" in case:
+        return True
     a = case["a"]
     if a[0] in "EW":
         return False
@@ -126,8 +138,41 @@ def _subset(a, b, pts):
     return True
 
 
+def _curved_content(ctx, case):
+    fails = []
+    if "dome" in case:
+        a, h = float(case["dome"][0]), float(case["dome"][1])
+        x0, y0, x1, y1 = [float(v) for v in case["rect"]]
+        A = I.Primitive.polygon([(x0, y0), (x1, y0), (x1, y1), (x0, y1)])
+        B = I.SimpleShape(I.JordanCurve.from_ctrlpoints([[(-a, 0.0), (a, 0.0)], [(a, 0.0), (0.0, 2 * h), (-a, 0.0)]]))
+        ctx.count("dome")
+    else:
+        import math
+        nd, half = case["disk"], case["half"]
+        B = I.Primitive.circle(1.0, (0.0, 0.0), nd)
+        # the arcs stay within (cos(a/2) + sec(a/2))/2 of the centre (C16), the control points reach sec(a/2)
+        ang = 2 * math.pi / nd
+        reach = (math.cos(ang / 2) + 1 / math.cos(ang / 2)) / 2
+        half = max(half, reach + 0.01)
+        if half >= 1 / math.cos(ang / 2):
+            ctx.count("disk:control polygon inside too")
+        A = I.Primitive.square(2 * half)
+        ctx.count("disk")
+    truth = bool(case["truth"])
+    J = B.jordans[0]
+    for name, f in (("B in A", lambda: bool(B in A)), ("A.contains_shape(B)", lambda: bool(A.contains_shape(B))),
+                    ("J in A", lambda: bool(J in A)), ("A.contains_jordan(J, True)", lambda: bool(A.contains_jordan(J, True))),
+                    ("A.contains_jordan(J, False)", lambda: bool(A.contains_jordan(J, False)))):
+        r = I.outcome(f)
+        if r != ("ok", truth):
+            fails.append(Fail(kind="O", what="%s is not the subset relation for a curved content (closed form)" % name, impl=r, expected=truth))
+    return fails
+
+
 def check(ctx, case):
     fails = []
+    if "dome" in case or "disk" in case:
+        return _curved_content(ctx, case)
     a = case["a"]
     A = I.mk_shape(a)
     ctx.count("A:" + U.shape_kind(a))
